@@ -90,6 +90,11 @@ def table_cases(draw, tier):
             case["p_betas"] = [draw(st.integers(0, 3))] * p
         else:
             case["p_betas"] = draw(st.lists(st.integers(0, 3), min_size=p, max_size=p))
+        # a user callable may return its per-component terms as an integer array (np.arange(1, p + 1), np.array([2, 2, 4])) next to
+        # a fractional constant term (2 log n): the types the user wrote must not change the penalty that is applied
+        if draw(st.booleans()):
+            case["c_alpha"], case["p_alpha"] = case["c_alpha"] + 0.5, case["p_alpha"] + 0.25
+        case["int_betas"] = draw(st.booleans())
     return case
 
 
@@ -160,8 +165,9 @@ def check_table(case):
         ps = U.TableSaving(P.tolist(), 1, None)
         if case["detector"] == "CAPA":
             return CAPA(cs, ps, case["c_scale"], case["p_scale"], msl, maxl, ignore)
-        ca, cb = float(case["c_alpha"]), np.asarray(case["c_betas"], dtype=float)
-        pa, pb = float(case["p_alpha"]), np.asarray(case["p_betas"], dtype=float)
+        beta_type = np.int64 if case.get("int_betas") else float
+        ca, cb = float(case["c_alpha"]), np.asarray(case["c_betas"], dtype=beta_type)
+        pa, pb = float(case["p_alpha"]), np.asarray(case["p_betas"], dtype=beta_type)
 
         def cpen(n_, p_, k_, scale=1.0):
             return ca, cb.copy()
@@ -251,7 +257,8 @@ def builtin_cases(draw, tier):
     msl = draw(st.integers(ms, ms + 3))
     nmax = 40 if tier == "quick" else 100
     n = D.weighted(draw, [(2, st.integers(msl, msl + 3)), (5, st.integers(msl, 24)), (3, st.integers(msl, nmax))])
-    maxl = D.weighted(draw, [(1, st.just(msl)), (6, st.integers(msl, n + 2)), (3, st.just(1000))])
+    # ("no limit" is written as sys.maxsize / the largest int64: the parameter has no None option)
+    maxl = D.weighted(draw, [(1, st.just(msl)), (6, st.integers(msl, n + 2)), (3, st.just(1000)), (1, st.just(2 ** 63 - 1))])
     exact = draw(st.booleans()) if "Cov" not in coll else False
     case = {"detector": det, "coll": coll, "point": point, "msl": msl, "maxl": maxl,
             "c_scale": draw(st.sampled_from([0.0, 0.1, 0.5, 1.0, 2.0])),
